@@ -55,7 +55,7 @@ ASSUMPTIONS = ["compared: utterances, t1/t2/t4/apply/turn/health.jsonl bytes und
 
 # drawn features (repeats = weight). "agent_scope", "snapshot_every_2", "snippet_template" of the first version are still understood by
 # feature_overrides (saved cases) but are now drawn as plain config leaves (_base_cfg).
-FEATURES = ["caches_off", "t1_parallel", "t1_parallel", "t2_parallel", "t2_parallel", "sched_budgets", "gel", "gel", "reflection", "hybrid", "hybrid", "quality", "quality",
+FEATURES = ["caches_off", "t1_parallel", "t1_parallel", "t2_parallel", "t2_parallel", "sched_budgets", "gel", "gel", "reflection", "hybrid", "hybrid", "hybrid", "quality", "quality",
             "perf_metrics", "kill_switch",
             # hardening wave
             "planner_deltas", "planner_deltas", "planner_deltas", "llm_dialogue", "rag_eager", "perf_caches", "small_caches", "t1_perf_caps",
@@ -322,6 +322,34 @@ def cases(draw):
     feats = sorted(draw(st.sets(st.sampled_from(FEATURES), max_size=6)))
     vals = draw(_vals())
     base = draw(_base_cfg())
+    if "hybrid" in feats and len(eps) >= 4 and draw(st.sampled_from([True, True, True, False])):
+        # graph evidence with tie structures: every other episode links to one intermediate W with the SAME |w| and alternating sign
+        # (the strongest anchor->W link is a magnitude tie), W links on to a target V; several anchors also reach V directly with
+        # weights whose float sum depends on the summation order
+        perm = [e["id"] for e in draw(st.permutations(eps))]
+        w_id, v_id, anchors = perm[0], perm[1], perm[2:]
+        mag = draw(st.sampled_from([0.5, 0.9, 0.2, 1.0]))
+        gel = gel or {"nodes": {i: {"id": i} for i in perm}, "edges": {}, "meta": {}}
+
+        def _edge(a, b, wt):
+            s_, d_ = (a, b) if a <= b else (b, a)
+            gel["edges"][f"{s_}→{d_}"] = {"id": f"{s_}→{d_}", "src": s_, "dst": d_, "weight": wt, "rel": "coact", "attrs": {}}
+
+        sign0 = draw(st.sampled_from([1.0, -1.0]))
+        for i, a in enumerate(anchors):
+            _edge(a, w_id, mag * sign0 * (1.0 if i % 2 == 0 else -1.0))
+        _edge(w_id, v_id, draw(st.sampled_from([0.9, 0.5, -0.5, 1.0])))
+        if draw(st.booleans()):
+            for i, a in enumerate(anchors):
+                _edge(a, v_id, [0.1, 0.2, 0.3, 0.7, -0.1][i % 5])
+        vals["hops"] = draw(st.sampled_from([2, 2, 2, 1]))
+        # the structure must reach the re-ranker: a slice wide enough for W, V and anchors of both signs, every owner / age retrievable
+        vals["hyb"] = {k: v_ for k, v_ in vals["hyb"].items() if k not in ("k_max", "anchor_top_m")}
+        if draw(st.booleans()):
+            vals["hyb"]["anchor_top_m"] = draw(st.sampled_from([3, 4, 8]))
+        base = world.deep_merge(base, {"t2": {"k_retrieval": draw(st.sampled_from([10, 64])), "sim_threshold": draw(st.sampled_from([0.0, -1.0])),
+                                              "owner_scope": "any", "tiers": ["exact_semantic", "cluster_semantic", "archive"]}})
+        shape.append("gel_ties")
     agents = {"A": ["g1", "g3"], "B": ["g2", "g1"], "Ç": ["g3"]}
     if draw(st.booleans()):
         agents = {a: list(draw(st.permutations(["g1", "g2", "g3"])))[:draw(st.integers(1, 3))] for a in ("A", "B", "Ç")}
